@@ -42,7 +42,7 @@ MANIFEST = dict(
 
 def named(pattern: str, res) -> bool:
     """the output matches the message pattern the MODEL expects for this fault class (tie, not oracle)"""
-    return re.search(pattern, res["stderr"] + "\n" + res["log"], re.S) is not None
+    return re.search(pattern, res["stderr"] + "\n" + res["log"], re.S | re.M) is not None
 
 
 # "names the problem on stderr or in its log": SOME problem report — a log record of level ERROR or CRITICAL,
@@ -59,6 +59,28 @@ def problem_reported(res) -> bool:
 def observed_kinds(res):
     text = res["stderr"] + "\n" + res["log"]
     return sorted(k for k, p in F.KIND_PATTERNS.items() if re.search(p, text, re.S))
+
+
+# kinds whose pattern is generic (an exception class only): their match says nothing about WHICH message was printed
+GENERIC_KINDS = {"missingDataSheet"}
+
+
+def report_skeleton(res) -> str:
+    """the first problem report of a run with everything input-dependent taken out: level + message text
+    without the processing stack, quoted values and numbers (`CRITICAL Template argument "…" doubly defined …`),
+    or the class of the uncaught exception.  Two runs stopped by the same check have the same skeleton whatever
+    the wording of that check's message is."""
+    text = res["log"] + "\n" + res["stderr"]
+    m = re.search(r"^(CRITICAL|ERROR): ([^\n]*)$", text, re.M)
+    if m:
+        rest = m.group(2)
+        msg = rest.split(": ", 1)[1] if ": " in rest else rest       # drop the processing stack
+        msg = re.sub(r'"[^"]*"|\'[^\']*\'', "…", msg)
+        msg = re.sub(r"\{.*", "{…", msg)
+        msg = re.sub(r"\d+", "#", msg)
+        return m.group(1) + " " + " ".join(msg.split())[:160]
+    m = re.findall(r"^[ \t]*([A-Za-z_][\w.]*(?:Error|Exception))\b", res["stderr"], re.M)
+    return ("exception " + m[-1]) if m else ""
 
 
 def slim(res):
@@ -106,17 +128,20 @@ def eval_cases(cases):
     out = []
     for c, pred in zip(cases, preds):
         rec = {"id": c["id"], "cls": c["cls"], "base": c["base"], "site": c["site"], "viol": [], "ties": [], "runs": 0,
-               "pred": pred, "kinds": None}
+               "pred": pred, "kinds": None, "wording": [], "kind_runs": []}
         for sentinel in c["modes"]:
             res = W.run_cli(c["wb"], sentinel)
             rec["runs"] += 1
             fails = oracle_fault(c, res, sentinel)
             if fails:
                 rec["viol"].append({"what": "; ".join(fails), "sentinel": sentinel, "observed": slim(res)})
-            # B: tie
-            if wording_differs(c, res):
-                rec["ties"].append({"what": "a problem is reported, but not with the message expected for this fault class",
-                                    "expected_pattern": c["pattern"], "real": slim(res)})
+            # B: tie.  Disagreements that rest on the WORDING of a message only are kept apart (`wording`): fold()
+            # decides per fault kind whether the message was reworded as a whole (every run of the kind reports in
+            # the same new words — accepted, noted) or only some runs deviate (tie break).
+            wd = wording_differs(c, res)
+            if wd:
+                rec["wording"].append({"what": "a problem is reported, but not with the message expected for this fault class",
+                                       "expected_pattern": c["pattern"], "real": slim(res), "skeleton": report_skeleton(res), "k": None})
             if "__error__" in pred:
                 rec["ties"].append({"what": "driver error", "detail": pred})
                 continue
@@ -134,7 +159,14 @@ def eval_cases(cases):
                     rec["ties"].append({"what": "file presence differs", "model": pred, "real": slim(res)})
             elif model_fail:
                 k = pred["fault"]["k"]
-                if k not in kinds:
+                for w in rec["wording"]:
+                    w["k"] = w["k"] or k
+                rec["kind_runs"].append([k, k in kinds])
+                if k not in kinds and set(kinds) <= GENERIC_KINDS and problem_reported(res):
+                    # no message of ANY known kind is recognised: the wording is unknown, not the kind different
+                    rec["wording"].append({"what": "fault kind differs", "model": pred, "real_kinds": kinds, "real": slim(res),
+                                           "skeleton": report_skeleton(res), "k": k})
+                elif k not in kinds:
                     rec["ties"].append({"what": "fault kind differs", "model": pred, "real_kinds": kinds, "real": slim(res)})
                 elif k not in c["kinds"]:
                     rec["ties"].append({"what": "model names a fault of another class than the injected one", "model": pred})
@@ -205,18 +237,19 @@ def known_cases():
     wb = W.base_plain(random.Random(0))
     w = W.wb_copy(wb)
     w["sheets"]["content_index"]["rows"].append({"type": "create_flows", "sheet_name": "main"})
-    out.append({"what": "content index row with an invalid type", "wb": w, "pattern": r"ERROR: .*invalid type: 'create_flows'"})
+    # pattern = the robust part of the report: an ERROR-level record (and the offending value where the message names one)
+    out.append({"what": "content index row with an invalid type", "wb": w, "pattern": r"^ERROR: [^\n]*create_flows"})
     w = W.wb_copy(wb)
     w["sheets"]["main"]["rows"] += [
         {"row_id": "x1", "type": "start_new_flow", "from": "m8", "message_text": "other flow"},
         {"row_id": "x2", "type": "send_message", "from": "x1", "condition": "maybe", "message_text": "after"},
     ]
     out.append({"what": "edge from start_new_flow with a condition other than Completed/Expired", "wb": w,
-                "pattern": r"ERROR: .*Condition from start_new_flow must be"})
+                "pattern": r"^ERROR: [^\n]*start_new_flow"})
     w = W.wb_copy(W.base_webhook(random.Random(0)))
     w["sheets"]["hooks"]["rows"][2]["condition"] = "Sucess"
     out.append({"what": "edge from call_webhook with a condition other than Success/Failure", "wb": w,
-                "pattern": r"ERROR: .*Condition from call_webhook/transfer_airtime must be"})
+                "pattern": r"^ERROR: [^\n]*call_webhook"})
     return out
 
 
@@ -403,6 +436,25 @@ def run(ck: core.Check):
 
 def fold(ck, cases, recs, search=False):
     by_id = {c["id"]: c for c in cases}
+    # wording-only disagreements, per model fault kind: reworded as a whole, or deviating runs?
+    recognised, unknown = {}, {}
+    for r in recs:
+        for k, ok in r.get("kind_runs", []):
+            recognised[k] = recognised.get(k, 0) + (1 if ok else 0)
+        for w in r.get("wording", []):
+            unknown.setdefault(w["k"] or ("class " + r["cls"]), []).append((r, w))
+    for k, items in sorted(unknown.items(), key=lambda kv: str(kv[0])):
+        skeletons = sorted({w["skeleton"] for _, w in items})
+        if not recognised.get(k) and all(skeletons) and len(skeletons) <= 5:
+            # every run the model stops with this kind reports a problem at the predicted severity, none in the words
+            # on record, all in the same few new words: the message was reworded (behaviour tied by status / route / file)
+            ck.count("wording.reworded." + str(k), len(items))
+            ck.notes.append(f"messages of fault kind {k} are not the recorded wording in any of {len(items)} runs; now: {skeletons}")
+            continue
+        for r, w in items:
+            c = by_id[r["id"]]
+            ck.tie_break(f"{c['cls']}: {w['what']}", {"base": c["base"], "site": c["site"], "detail": {x: y for x, y in w.items() if x != "k"},
+                                                      "workbook": c["wb"]})
     for r in recs:
         c = by_id[r["id"]]
         for m in c["modes"]:
